@@ -19,7 +19,7 @@ use serde::{Deserialize, Serialize};
 use serde_json::json;
 
 use crate::node::{Blk, Served, Server};
-use crate::sut::{Cfg, Sut, Tables, new_db, read_tables, remove_db};
+use crate::sut::{Cfg, CrashPoint, Sut, Tables, new_db, read_tables, remove_db};
 
 pub const MAX_LEN: usize = 50;
 const RANGE: u64 = 15;
@@ -82,6 +82,13 @@ pub enum Ev {
     Reconnect,
     /// `ChainDataPruner::prune(keep)` as `ChainDataImporterWithPruner` calls it after an import
     Prune(u64),
+    /// the signer starts the import for the beacon at the tip and the process dies inside
+    /// `CardanoChainDataImporter::import` at the given point (blocks committed, range-root steps not
+    /// yet run / half run); a new process is started on the same database
+    CrashImport(CrashPoint),
+    /// the import for the beacon at the tip loses its connection to the node after four blocks were
+    /// rolled forward (chain-sync time-out or reset: the reader errors and reconnects); same process
+    TimeoutImport,
 }
 
 #[derive(Clone, Copy, PartialEq)]
@@ -122,6 +129,7 @@ fn remember_shortest(v: &Violation) {
 }
 static N_INTERSECT_NOT_FOUND: AtomicU64 = AtomicU64::new(0);
 static N_INTERSECT_NOT_SENT: AtomicU64 = AtomicU64::new(0);
+static N_CRASHED_IMPORTS: AtomicU64 = AtomicU64::new(0);
 
 /// What a fresh node holds and answers after importing `chain` once up to `imported_to`.
 pub struct Fresh {
@@ -235,6 +243,8 @@ struct Run<'a> {
     server: Arc<Mutex<Server>>,
     sut: Option<Sut>,
     lpp: Lpp,
+    crashed_in_last_import: bool,
+    rolled_into_pruned_range: bool,
     /// lowest point of the forks the node switched to since the importer last talked to it
     undelivered_fork_floor: Option<u64>,
     pruned: bool,
@@ -349,6 +359,21 @@ impl Run<'_> {
                 self.outcome = "pruned".into();
                 true
             }
+            Ev::CrashImport(at) => {
+                let Some(t) = resolve_target(Target::Tip, tip) else { return false };
+                self.sut.as_ref().unwrap().arm_crash(at);
+                self.import(history, i, t, check_roots).await;
+                // not reached (e.g. the chunk decorator did not call the importer): an ordinary import, already an event
+                self.crashed_in_last_import
+            }
+            Ev::TimeoutImport => {
+                let Some(t) = resolve_target(Target::Tip, tip) else { return false };
+                self.server.lock().unwrap().armed_timeout = true;
+                self.import(history, i, t, check_roots).await;
+                let fired = !self.server.lock().unwrap().armed_timeout;
+                self.server.lock().unwrap().armed_timeout = false;
+                fired
+            }
             Ev::Import(target) => {
                 let Some(t) = resolve_target(target, tip) else { return false };
                 for other in TARGETS {
@@ -387,6 +412,7 @@ impl Run<'_> {
         let mut echo_after_forwards = false;
         let mut forwards_in_scan = 0;
         let mut actions_in_scan = 0;
+        let mut first_from_slot: Option<u64> = None;
         let mut below_first = false;
         // lowest slot among the blocks stored before this import or rolled forward (up to the target) during it
         let mut lowest_slot: Option<u64> = pre.min_block().map(|b| b.1);
@@ -414,6 +440,9 @@ impl Run<'_> {
                         }
                     }
                     from_slot = *slot;
+                    if scans == 1 {
+                        first_from_slot = Some(*slot);
+                    }
                     forwards_in_scan = 0;
                     actions_in_scan = 0;
                     scan_lpps.push((None, false));
@@ -429,9 +458,12 @@ impl Run<'_> {
                     actions_in_scan += 1;
                     if b.number <= t {
                         lowest_slot = Some(lowest_slot.map_or(b.slot(), |l: u64| l.min(b.slot())));
-                        if let Some(l) = scan_lpps.last_mut() {
-                            l.0 = Some((b.slot(), b.hash_hex()));
-                        }
+                    }
+                }
+                Served::Stored { slot, hash } => {
+                    // the streamer's last polled point follows every batch it hands over
+                    if let Some(l) = scan_lpps.last_mut() {
+                        l.0 = Some((*slot, hash.clone()));
                     }
                 }
                 Served::Backward { height, slot } => {
@@ -487,6 +519,9 @@ impl Run<'_> {
         for (n, (l, timed_out)) in scan_lpps.iter().enumerate() {
             let last_scan = n + 1 == scan_lpps.len();
             if *timed_out {
+                // the scan failed on the node's side: the importer either keeps its previous point (batches stored
+                // meanwhile notwithstanding) or forgets it; both are admitted, the state remembers the previous point
+                self.lpp = Lpp::Unknown(hash64(&format!("failed scan after {:?}", self.lpp)));
                 continue;
             }
             if last_scan && error.is_some() {
@@ -494,6 +529,46 @@ impl Run<'_> {
                 self.lpp = Lpp::Unknown(hash64(&serde_json::to_string(&history[..=i]).unwrap()));
             } else if let Some((s, h)) = l {
                 self.lpp = Lpp::Point(*s, h.clone());
+            }
+        }
+        // a roll-back into a range whose first blocks were pruned (remembered across imports that are not judged)
+        let first_stored = pre.min_block().map(|b| (b.0, b.1));
+        if self.pruned && real_rollbacks.iter().any(|(h, _)| first_stored.is_some_and(|f| *h >= f.0 && f.0 > (h / RANGE * RANGE).max(1))) {
+            self.rolled_into_pruned_range = true;
+        }
+        self.crashed_in_last_import = self.sut.as_ref().unwrap().crashed();
+        if self.crashed_in_last_import {
+            // the process died inside the import: nothing to judge now; a new process starts on the same database
+            N_CRASHED_IMPORTS.fetch_add(1, Ordering::Relaxed);
+            self.sut = None;
+            self.sut = Some(Sut::start(&self.db, self.server.clone(), self.cfg));
+            self.lpp = Lpp::None;
+            self.outcome = "import:process-killed-before-range-roots|restarted".into();
+            return;
+        }
+        self.sut.as_ref().unwrap().disarm_crash();
+        if node_timeout && below_first {
+            // the failed import is not judged as a whole, but the roll-back it delivered must have removed the blocks
+            // above its point: blocks that are not on the node's chain may not survive it
+            let on_chain: std::collections::HashSet<String> = chain.iter().map(|b| b.hash_hex()).collect();
+            if let Some(stale) = post.blocks.iter().find(|b| !on_chain.contains(&b.2)) {
+                let key = "C13/rollback-before-first-stored-block-removes-nothing";
+                let what = format!(
+                    "during event #{i} {:?} of history {} [max_roll_forwards_per_poll={}, pallas_agency={}, chunk={:?}] the node delivered a roll-back to a point before the first stored block ({}), yet block {} (slot {}) of the abandoned branch is still stored; canonical chain {}",
+                    history[i],
+                    serde_json::to_string(&history[..=i]).unwrap(),
+                    self.cfg.max_roll_forwards,
+                    self.cfg.pallas_agency,
+                    self.cfg.chunk,
+                    describe_served(&served),
+                    stale.0,
+                    stale.1,
+                    rle(chain.iter().map(|b| (b.number, b.branch))),
+                );
+                self.violations.push(Violation { key: key.into(), what, replay: self.replay_json(&history[..=i]) });
+                self.corrupt = Some(key.to_string());
+                self.outcome = format!("violation:{key}");
+                return;
             }
         }
         if let Some(e) = &error {
@@ -533,17 +608,27 @@ impl Run<'_> {
         .flatten()
         .collect();
         if !diffs.is_empty() {
-            let first_stored = pre.min_block().map(|b| (b.0, b.1));
             // the node switched to a fork below the target and the importer has not talked to it since
             let undelivered_fork = scans == 0 && self.undelivered_fork_floor.is_some_and(|f| f < t);
             let only_roots_differ = node_part.blocks == expected.blocks && node_part.txs == expected.txs;
-            // a roll-back into a range whose first blocks were pruned
-            let into_pruned_range = self.pruned
-                && real_rollbacks.iter().any(|(h, _)| first_stored.is_some_and(|f| *h >= f.0 && f.0 > (h / RANGE * RANGE).max(1)));
+            let into_pruned_range = self.rolled_into_pruned_range;
+            // the scan resumed from a point below blocks the store already holds (only possible after a scan that
+            // failed after committing batches): the node's roll-back to that point passes for the mere acknowledgement
+            let cursor_behind_store = first_from_slot.is_some_and(|f| pre.max_block().is_some_and(|m| f < m.1));
+            // every root the node holds is right, but roots of ranges its blocks cover are missing and the importer
+            // (behind the chunk decorator) was not run at all
+            let subset = |a: &Vec<(u64, u64, String)>, b: &Vec<(u64, u64, String)>| a.len() < b.len() && a.iter().all(|x| b.contains(x));
+            let roots_missing = only_roots_differ
+                && (subset(&node_part.roots, &expected.roots) || node_part.roots == expected.roots)
+                && (subset(&node_part.legacy_roots, &expected.legacy_roots) || node_part.legacy_roots == expected.legacy_roots);
             let key = if below_first {
                 "C13/rollback-before-first-stored-block-removes-nothing"
             } else if echo_after_forwards {
                 "C13/rollback-to-scan-start-point-ignored-mid-scan"
+            } else if cursor_behind_store {
+                "C13/failed-scan-leaves-cursor-behind-stored-blocks-then-rollback-taken-for-acknowledgement"
+            } else if self.cfg.chunk.is_some() && scans == 0 && roots_missing && !undelivered_fork {
+                "C13/chunk-decorator-skips-range-root-steps-when-blocks-already-stored"
             } else if undelivered_fork && error.is_none() {
                 "C13/import-skipped-when-target-already-stored-misses-rollback"
             } else if into_pruned_range && only_roots_differ && error.is_none() {
@@ -554,11 +639,12 @@ impl Run<'_> {
                 "C13/tables-diverge-from-fresh-import"
             };
             let what = format!(
-                "after event #{i} {:?} (target block {t}) of history {} [max_roll_forwards_per_poll={}, pallas_agency={}] the node's tables differ from those of a fresh node that imports the canonical chain {} once up to {t}: {}. The node served in this import: {}. Import result: {}. Node tables: {} — fresh import: {}",
+                "after event #{i} {:?} (target block {t}) of history {} [max_roll_forwards_per_poll={}, pallas_agency={}, chunk={:?}] the node's tables differ from those of a fresh node that imports the canonical chain {} once up to {t}: {}. The node served in this import: {}. Import result: {}. Node tables: {} — fresh import: {}",
                 history[i],
                 serde_json::to_string(history).unwrap(),
                 self.cfg.max_roll_forwards,
                 self.cfg.pallas_agency,
+                self.cfg.chunk,
                 rle(chain.iter().map(|b| (b.number, b.branch))),
                 diffs.join("; "),
                 describe_served(&served),
@@ -636,10 +722,11 @@ impl Run<'_> {
         }
         for (key, msg) in root_violations {
             let what = format!(
-                "{msg}. History {} [max_roll_forwards_per_poll={}, pallas_agency={}], event #{i} {:?}, canonical chain {}. Node tables: {}",
+                "{msg}. History {} [max_roll_forwards_per_poll={}, pallas_agency={}, chunk={:?}], event #{i} {:?}, canonical chain {}. Node tables: {}",
                 serde_json::to_string(&history[..=i]).unwrap(),
                 self.cfg.max_roll_forwards,
                 self.cfg.pallas_agency,
+                self.cfg.chunk,
                 history[i],
                 rle(chain.iter().map(|b| (b.number, b.branch))),
                 describe_tables(&post),
@@ -677,14 +764,15 @@ impl Run<'_> {
 
     fn canon(&self) -> String {
         if let Some(k) = &self.corrupt {
-            return format!("batch={} pallas_agency={} | diverged:{k}", self.cfg.max_roll_forwards, self.cfg.pallas_agency);
+            return format!("batch={} pallas_agency={} chunk={:?} | diverged:{k}", self.cfg.max_roll_forwards, self.cfg.pallas_agency, self.cfg.chunk);
         }
         let t = read_tables(&self.db);
         let s = self.server.lock().unwrap();
         format!(
-            "batch={} pallas_agency={} | chain[{}] next_branch={} armed={:?} follower={:?} | db blocks[{}] tx={:x} roots={:x}/{} legacy={:x}/{} | lpp={:?} pruned={}",
+            "batch={} pallas_agency={} chunk={:?} | chain[{}] next_branch={} armed={:?} follower={:?} | db blocks[{}] tx={:x} roots={:x}/{} legacy={:x}/{} | lpp={:?} pruned={}",
             self.cfg.max_roll_forwards,
             self.cfg.pallas_agency,
+            self.cfg.chunk,
             rle(s.chain.iter().map(|b| (b.number, b.branch))),
             s.next_branch,
             s.armed_fork,
@@ -710,6 +798,9 @@ fn describe_served(served: &[Served]) -> String {
         }
     };
     for s in served {
+        if matches!(s, Served::Stored { .. }) {
+            continue;
+        }
         match s {
             Served::Forward(b) => {
                 fw = Some(match fw {
@@ -727,7 +818,7 @@ fn describe_served(served: &[Served]) -> String {
                     Served::Await => "Await".into(),
                     Served::Timeout => "timeout".into(),
                     Served::ForkDuringScan { to } => format!("<node switches to a fork at block {to}>"),
-                    Served::Forward(_) => unreachable!(),
+                    Served::Forward(_) | Served::Stored { .. } => unreachable!(),
                 });
             }
         }
@@ -771,6 +862,8 @@ fn replay_inner(scratch: &Path, cfg: Cfg, mode: Mode, fresh: &FreshCache, histor
             server: server.clone(),
             sut: None,
             lpp: Lpp::None,
+            crashed_in_last_import: false,
+            rolled_into_pruned_range: false,
             undelivered_fork_floor: None,
             pruned: false,
             incremental_imports: 0,
@@ -819,6 +912,9 @@ pub fn alphabet(thorough: bool) -> Vec<Ev> {
     v.push(Ev::ArmFork(1));
     v.push(Ev::ArmFork(2));
     v.push(Ev::ArmFork(3));
+    v.push(Ev::CrashImport(CrashPoint::BeforeRangeRoots));
+    v.push(Ev::CrashImport(CrashPoint::BeforeLegacyRangeRoots));
+    v.push(Ev::TimeoutImport);
     if thorough {
         v.push(Ev::Reconnect);
         v.push(Ev::Prune(0));
@@ -877,7 +973,7 @@ pub fn run(ctx: &Ctx) -> ! {
 
     use Ev::*;
     if std::env::var("MC_PROFILE").is_ok() {
-        let cfg = Cfg { max_roll_forwards: 3, pallas_agency: false };
+        let cfg = Cfg { max_roll_forwards: 3, pallas_agency: false, chunk: None };
         for (name, mode, h) in [
             ("nominal/ball", Mode::Ball, nominal()),
             ("nominal/bfs", Mode::Bfs, nominal()),
@@ -899,18 +995,20 @@ pub fn run(ctx: &Ctx) -> ! {
     let p3: Vec<Ev> = vec![Advance(16), Advance(16), Import(Target::Abs(28))];
     let prefixes = vec![vec![], p1, p2, p3];
     let alpha = alphabet(!quick);
+    // chunk None = the importer undecorated (aggregator wiring); Some(n) = the signer's chunk decorator
     let configs: Vec<(Cfg, usize)> = if quick {
         vec![
-            (Cfg { max_roll_forwards: 3, pallas_agency: false }, 3),
-            (Cfg { max_roll_forwards: 100, pallas_agency: true }, 3),
-            (Cfg { max_roll_forwards: 1, pallas_agency: true }, 2),
+            (Cfg { max_roll_forwards: 3, pallas_agency: false, chunk: None }, 3),
+            (Cfg { max_roll_forwards: 100, pallas_agency: true, chunk: Some(7) }, 3),
+            (Cfg { max_roll_forwards: 1, pallas_agency: true, chunk: Some(1000) }, 2),
         ]
     } else {
         vec![
-            (Cfg { max_roll_forwards: 3, pallas_agency: false }, 4),
-            (Cfg { max_roll_forwards: 100, pallas_agency: true }, 4),
-            (Cfg { max_roll_forwards: 1, pallas_agency: true }, 3),
-            (Cfg { max_roll_forwards: 100, pallas_agency: false }, 3),
+            (Cfg { max_roll_forwards: 3, pallas_agency: false, chunk: None }, 4),
+            (Cfg { max_roll_forwards: 100, pallas_agency: true, chunk: Some(7) }, 4),
+            (Cfg { max_roll_forwards: 1, pallas_agency: true, chunk: Some(1000) }, 3),
+            (Cfg { max_roll_forwards: 100, pallas_agency: false, chunk: None }, 3),
+            (Cfg { max_roll_forwards: 3, pallas_agency: false, chunk: Some(1000) }, 3),
         ]
     };
     let mut bfs_info = vec![];
@@ -939,15 +1037,16 @@ pub fn run(ctx: &Ctx) -> ! {
         Ev::Import(Target::Abs(28)),
         Ev::Restart,
         Ev::Reconnect,
+        Ev::CrashImport(CrashPoint::BeforeRangeRoots),
     ];
     let mut ball_info = vec![];
     let ball_cfgs: Vec<(Cfg, usize, &Vec<Ev>)> = if quick {
-        vec![(Cfg { max_roll_forwards: 3, pallas_agency: true }, 1, &dev)]
+        vec![(Cfg { max_roll_forwards: 3, pallas_agency: true, chunk: Some(7) }, 1, &dev)]
     } else {
         vec![
-            (Cfg { max_roll_forwards: 3, pallas_agency: true }, 1, &dev),
-            (Cfg { max_roll_forwards: 100, pallas_agency: false }, 1, &dev),
-            (Cfg { max_roll_forwards: 3, pallas_agency: false }, 2, &dev2),
+            (Cfg { max_roll_forwards: 3, pallas_agency: true, chunk: Some(7) }, 1, &dev),
+            (Cfg { max_roll_forwards: 100, pallas_agency: false, chunk: None }, 1, &dev),
+            (Cfg { max_roll_forwards: 3, pallas_agency: false, chunk: Some(1000) }, 2, &dev2),
         ]
     };
     for (cfg, bound, devs) in &ball_cfgs {
@@ -978,6 +1077,7 @@ pub fn run(ctx: &Ctx) -> ! {
     rep.extra("intersects_not_sent_for_lack_of_agency", json!(g(&N_INTERSECT_NOT_SENT)));
     rep.extra("forks_during_a_scan", json!(g(&N_MIDSCAN_FORKS)));
     rep.extra("import_errors", json!(g(&N_IMPORT_ERRORS)));
+    rep.extra("imports_killed_at_a_crash_point", json!(g(&N_CRASHED_IMPORTS)));
     rep.extra("import_errors_from_node_timeout", json!(g(&N_NODE_TIMEOUTS)));
     rep.extra("table_comparisons", json!(g(&N_TABLE_COMPARISONS)));
     rep.extra("root_comparisons", json!(g(&N_ROOT_COMPARISONS)));
